@@ -48,9 +48,10 @@ NormOp(o) ==
 
 (* ---- open modes (Lua 5.1 io.open / ISO C fopen) ------------------------ *)
 AllModes == {"r", "rb", "w", "wb", "a", "ab", "r+", "rb+", "w+", "wb+", "a+", "ab+"}
-Readable(m)  == m \in {"r", "rb", "r+", "rb+", "w+", "wb+", "a+", "ab+"}
+(* "tmp" = io.tmpfile(): an update handle on a fresh, empty, anonymous file *)
+Readable(m)  == m \in {"r", "rb", "r+", "rb+", "w+", "wb+", "a+", "ab+", "tmp"}
 Writable(m)  == m \notin {"r", "rb"}
 AppendM(m)   == m \in {"a", "ab", "a+", "ab+"}
-TruncM(m)    == m \in {"w", "wb", "w+", "wb+"}
+TruncM(m)    == m \in {"w", "wb", "w+", "wb+", "tmp"}
 MustExist(m) == m \in {"r", "rb", "r+", "rb+"}
 =============================================================================
